@@ -40,11 +40,9 @@ REQUIRED_THEOREMS = [
     'OpusProps.C07.unpad_in_place', 'OpusProps.C07.ms_unpad_in_place', 'OpusProps.C07.move_frames_safe',
     'OpusProps.C07.pad_same_packet_inputs', 'OpusProps.C07.pad_same_decode', 'OpusProps.C07.int_ranges_noext',
     'OpusProps.C07.int_ranges_ext', 'OpusProps.C07.int_ranges_ext_tight', 'OpusProps.C07.ms_unpad_bytes', 'OpusProps.C07.ms_pad_bytes',
-    'OpusProps.C07.ms_unpad_validated', 'OpusProps.C07.ms_unpad_stream_same_decode', 'OpusProps.C07.ms_unpad_same_decode',
+    'OpusProps.C07.ms_unpad_validated', 'OpusProps.C07.ms_unpad_stream_same_decode', 'OpusProps.C07.ms_unpad_same_decode', 'OpusProps.C07.ms_pad_same_decode',
 ]
 UNPROVED = [
-    'ms_pad_same_decode: the analogue of ms_unpad_same_decode for opus_multistream_packet_pad (only the last stream changes; follows the '
-    'same way from pad_same_decode and the loop lemma msFullLoop_unpad generalised to an arbitrary per-stream packet map) — not written',
     'rejecting calls of opus_multistream_packet_unpad in place: the C function has already rewritten the streams before the offending one when '
     'it returns OPUS_INVALID_PACKET (e.g. 03 41 01 01 AA 00 | 01 55, 2 streams -> buffer starts 00 01 AA); the in-place model returns no '
     'buffer on error, so what exactly is modified is not a theorem (ms_unpad_bytes states the return values only)',
